@@ -938,3 +938,26 @@ def _v_fs_cc(I, a):
     I.ext['fs_crash_report'] = {'points': points, 'bad': bad, 'detail': detail[:6], 'trace': [(o, n) for (o, n, e) in fs.trace][:40]}
     I.notes.append('crash points examined: %d, without a complete state: %d' % (points, bad))
     return bad
+
+@ext('strtol', 'strtoll', 'strtoul', 'strtoull', '__isoc23_strtol', '__isoc23_strtoll')
+def _strtol(I, a):
+    # concrete strings only (harness-side parsing of announced counts)
+    p = a[0]; base = a[2] if len(a) > 2 else 10
+    if base not in (0, 10): raise Unsupported('strtol base %r' % (base,))
+    i = 0; bs = []
+    while True:
+        b = I.load((p[0], p[1] + i), 1, 'i8')
+        if isinstance(b, SV): raise Unsupported('strtol of symbolic text')
+        if b == 0: break
+        bs.append(b); i += 1
+        if i > 64: break
+    t = bytes(bs).decode('latin1'); j = 0
+    while j < len(t) and t[j] in ' \t\n\r\f\v': j += 1
+    k = j
+    if k < len(t) and t[k] in '+-': k += 1
+    d0 = k
+    while k < len(t) and t[k].isdigit(): k += 1
+    v = int(t[j:k]) if k > d0 else 0
+    if k == d0: k = 0
+    if a[1] != NULL: I.store(a[1], (p[0], p[1] + k), 8)
+    return mask(v, 64)
